@@ -229,6 +229,10 @@ TINY_SPEC = {"name": "d", "attrs": {"title": "t"},
 TINY_GROUPS = [["/d.dods?s&s.i>1", "/d.dods?s.i"], ["/d.dods?a[1:2]", "/d.ascii?s.w&s.i<9"]]
 
 
+# lazy (IterData) sequences: hyperslab / selection / projection on the plain and on the ranged one
+LAZY_GROUPS = [["/d.dods?s[1:1:8]", "/d.ascii?r.g&r.j!=3"], ["/d.dods?r[1:1:8]", "/d.dods?s.i,s.w", "/d.ascii?s&s.i>1"]]
+
+
 class Rec(object):
     """stands in for ctx inside pool workers: records the calls, the parent replays them"""
 
@@ -295,20 +299,25 @@ def run_jobs(ctx, jobs):
 def explore(ctx, tier, rng, specs, search=False):
     """Budgets (schedules; measured ~450 schedules/s on 14 workers):
     quick   ~28 k: line-level one-preemption EXHAUSTIVE on the tiny pairs; call-level one-preemption exhaustive on
-                   two fixed pairs and every 10th point of five more groups; 150 seeded random line points per fixed
+                   two fixed pairs and every 12th point of the other fixed and the lazy groups; 150 seeded random line points per fixed
                    group; a stride-14 lattice of call-level two-preemption schedules on the tiny pairs; 300 random
                    multi-preemption schedules (half of them at line granularity).
-    thorough ~170 k: line-level one-preemption exhaustive on the tiny pairs and two fixed pairs, every 4th line point
-                   (seeded offset) + every call point of the other five groups; two-preemption call-level lattices
-                   capped at 40 k (tiny) and 4 k per fixed pair; 6000 random."""
+    thorough ~170 k: line-level one-preemption exhaustive on the tiny pairs and two fixed pairs, every 4th (3 threads:
+                   8th) line point (seeded offset) + every call point of the other fixed and the lazy groups;
+                   two-preemption call-level lattices capped at ~14 k per tiny pair and 3 k per other pair; 5000 random.
+    failing-input search (middle budget ~60 k): as quick but every 3rd call point and 600 random line points per group,
+                   1500 random."""
     quick = tier == "quick" and not search
     full = tier == "thorough" and not search     # (the failing-input search uses the middle budget)
     jobs = []
     notes = []
     off = rng.randrange(1 << 16)
     # warm-up in the parent (imports, regex and singledispatch caches) and the points of every request
-    for spec, groups, label in ((F.FIXED_SPEC, FIXED_GROUPS, "fixed"), (TINY_SPEC, TINY_GROUPS, "tiny")):
+    for spec, groups, label in ((F.FIXED_SPEC, FIXED_GROUPS, "fixed"), (TINY_SPEC, TINY_GROUPS, "tiny"),
+                                (F.LAZY_SPEC, LAZY_GROUPS, "lazy")):
         for gi, urls in enumerate(groups):
+            if label == "lazy":
+                gi += 2         # sampled like the later fixed groups
             pts, lpts = [], []
             for u in urls:
                 o, p = solo_points(spec, u)
@@ -329,7 +338,7 @@ def explore(ctx, tier, rng, specs, search=False):
                     jobs.append((spec, urls, ch, "one-preemption-exhaustive", "line"))
                 # two preemptions (call level): a lattice; the full square is ~10^6 schedules
                 allsq = sum(pts[t] * pts[u] for t in range(len(pts)) for u in range(len(pts)) if u != t)
-                stride = max(1, int((allsq / (20000.0 if full else 2600.0)) ** 0.5) + 1)
+                stride = max(1, int((allsq / (14000.0 if full else 2000.0)) ** 0.5) + 1)
                 two = list(two_preemption_plans(pts, stride=stride))
                 for ch in chunks(two, 150):
                     jobs.append((spec, urls, ch, "two-preemptions-lattice", "call"))
@@ -341,29 +350,32 @@ def explore(ctx, tier, rng, specs, search=False):
                 sample, tag = line_one, "one-preemption-exhaustive"      # subsumes the call-level ones
             else:
                 if quick and gi >= 2:
-                    sub, ctag = one[(gi + off) % 10::10], "one-preemption-sampled"
+                    sub, ctag = one[(gi + off) % 12::12], "one-preemption-sampled"
+                elif not full and gi >= 2:
+                    sub, ctag = one[(gi + off) % 3::3], "one-preemption-sampled"
                 else:
                     sub, ctag = one, "one-preemption-exhaustive"
                 for ch in chunks(sub, 120):
                     jobs.append((spec, urls, ch, ctag, "call"))
                 if full:
-                    sample, tag = line_one[off % 4::4], "one-preemption-every-4th"
+                    st = 4 if len(urls) == 2 else 8
+                    sample, tag = line_one[off % st::st], "one-preemption-every-%dth" % st
                 else:
-                    sample = rng.sample(line_one, min(150 if quick else 1000, len(line_one)))
+                    sample = rng.sample(line_one, min(150 if quick else 600, len(line_one)))
                     tag = "one-preemption-random-sample"
             for ch in chunks(sample, 120):
                 jobs.append((spec, urls, ch, tag, "line"))
             note = "%s %s: call points=%s line points=%s line-level one-preemption %s=%d" % (
                 label, urls, pts, lpts, tag, len(sample))
             if full:
-                stride = max(1, int((2.0 * pts[0] * pts[1] / 4000.0) ** 0.5))
+                stride = max(1, int((2.0 * pts[0] * pts[1] / 3000.0) ** 0.5))
                 two = list(two_preemption_plans(pts[:2], stride=stride))
                 for ch in chunks(two, 150):
                     jobs.append((spec, urls[:2], ch, "two-preemptions-lattice", "call"))
                 note += " two-preemption(call) lattice stride %d=%d" % (stride, len(two))
             notes.append(note)
     # random schedules with more preemptions, random datasets and request groups
-    n_random = 300 if quick else 6000 if full else 1500
+    n_random = 300 if quick else 5000 if full else 1500
     for i in range(n_random):
         if i % 3 == 0:
             spec, urls = F.FIXED_SPEC, rng.sample(F.FIXED_REQUESTS, rng.choice([2, 3]))
